@@ -1,8 +1,43 @@
 """Track thrift3: C03 (spec conformance), C11 (unchecked codec), C12 (async decoding) — runtime level."""
 
 
+import os, subprocess, time
+
+_V = os.path.dirname(os.path.dirname(os.path.abspath(__file__)))
+
+
+def miri_step(cfg, tier, seed, workdir, env):
+    """thorough tier of C11: run a small corpus of unchecked-codec requests under miri (a model cannot
+    exhibit a real out-of-bounds access; guard bytes and miri can).  Skipped, and said so in the
+    evidence, when no nightly toolchain with miri is installed."""
+    if tier != "thorough":
+        return {"extra": {"miri": "not run (quick tier)"}}
+    reqs = [l.rstrip("\n") for l in open(os.path.join(_V, "corpus", "C11.miri.txt")) if l.strip() and not l.startswith("#")]
+    e = dict(env, CARGO_TARGET_DIR=os.path.join(_V, "target", "miri"), MIRIFLAGS="-Zmiri-disable-isolation -Zmiri-tree-borrows")
+    t0 = time.time()
+    try:
+        p = subprocess.run(["cargo", "+nightly", "miri", "run", "--offline", "-p", "rt", "--", "exec"], cwd=os.path.join(_V, "harness"),
+                           env=e, input="\n".join(reqs) + "\n", stdout=subprocess.PIPE, stderr=subprocess.PIPE, text=True, timeout=1500)
+    except (subprocess.TimeoutExpired, FileNotFoundError) as ex:
+        return {"extra": {"miri": "not completed: %s" % type(ex).__name__}}
+    if "error: toolchain" in p.stderr or "no such command" in p.stderr or "is not installed" in p.stderr:
+        return {"extra": {"miri": "unavailable: " + p.stderr.strip()[-200:]}}
+    native = subprocess.run([os.path.join(_V, "target", "cargo", "debug", "rt"), "exec"], input="\n".join(reqs) + "\n",
+                            stdout=subprocess.PIPE, stderr=subprocess.DEVNULL, text=True).stdout.split("\n")[:len(reqs)]
+    got = p.stdout.split("\n")[:len(reqs)]
+    fails = []
+    if p.returncode != 0 or "Undefined Behavior" in p.stderr:
+        i = min(len([x for x in got if x]), len(reqs) - 1)
+        fails.append(("C11-miri", reqs[i], "C11", "miri: " + " ".join(l.strip() for l in p.stderr.splitlines() if "Undefined Behavior" in l or "-->" in l)[:300], "abort"))
+    elif got != native:
+        i = [a != b for a, b in zip(got, native)].index(True)
+        fails.append(("C11-miri", reqs[i], "C11", "answer under miri differs from the native run", got[i]))
+    return {"evaluations": len(reqs), "distinct": reqs, "oracle_fails": fails,
+            "extra": {"miri": {"requests": len(reqs), "undefined_behavior": bool(fails), "wall_s": round(time.time() - t0, 1), "flags": e["MIRIFLAGS"]}}}
+
+
 def register(prop, TB_COMMON):
-    prop("C11", lean_props=["C11", "Tables"],
+    prop("C11", lean_props=["C11", "Tables"], extra_steps=[miri_step],
          trusted_base=TB_COMMON + [
              "C11: every unchecked access of binary_unsafe.rs is modelled as a guarded access (Thrift/Unsafe.lean); real out-of-bounds behaviour is observed only by the harness (exact-size windows, 0xAA guard bytes before the window and from the final index to the end of the capacity)",
              "C11: bytes::BytesMut::{advance_mut, split, capacity}, linkedbytes 0.1.8 LinkedBytes::insert are modelled (spare capacity conserved by split), compared through node lengths / index / zero_copy_len on every request",
